@@ -726,7 +726,7 @@ def run(ctx):
     ctx.rule = (
         'distance: full product path x layout(1-3 summaries over scalar/(bs,1)/(bs,2)) x observed form x observation x '
         'metric x dtype x batch size; per configuration every cyclic window of bs consecutive rows of the enumerated '
-        'list grid**m (stride bs in quick, 1 in thorough) plus the single batch of all rows goes through the real '
+        'list grid**m (stride bs in quick; stride 1 in thorough for bs<=3, m<=4) plus the single batch of all rows goes through the real '
         'Distance node; distinct = distinct batches per configuration. partition: every data set over the column grid '
         'with non-constant columns x every composition into add_data calls x node prehistory. rounds: BFS over '
         'round/abort/reset operations with canonical node-state merging, every option executed from every reachable '
@@ -735,8 +735,13 @@ def run(ctx):
         'oracle = one scipy.spatial.distance.<metric>(u, v, ...) call per row (python loops for the two user callables), '
         'compared with rtol %g (C loop of cdist vs numpy row function on integer-valued inputs |x| <= 3)' % RTOL_DIST,
         'metric alphabet: %s; wminkowski does not exist in scipy 1.18 and is excluded' % ', '.join(R.METRICS),
-        'value grids {-1,0,2[,3]} per cell; observations A=(2,-1,0,2,0,-1) (on the grid, zero distances occur) and '
-        'B=(1,-2,3,0,-3,1) (thorough); batches are windows over the complete row list, not the full product of rows',
+        'value grids per cell: quick {-1,0,2} for m<=3 columns and {-1,2} for m>=4; thorough {-1,0,2,3} for m<=3 and '
+        '{-1,0,2} for m>=4; observations A=(2,-1,0,2,0,-1) (on the grid, zero distances occur) and B=(1,-2,3,0,-3,1) '
+        '(thorough, with integer-dtype batches); batches are cyclic windows over the complete row list grid**m (every '
+        'row occurs; stride 1 puts every row in every batch position: thorough, bs<=3, m<=4) plus the one batch of all '
+        'rows, not the full product of rows',
+        'user callables additionally must receive X of shape (bs,m) and Y of shape (1,m), the shapes documented for '
+        'elfi.Distance',
         'adaptive: scale compared with two-pass np.std(axis=0), rtol %g atol %g; data sets with a constant column are '
         'excluded as whole-round data (scale 0, weights infinite) but occur as prefixes' % (RTOL_SCALE, ATOL_SCALE),
         'update_distance with no data added in the round is outside the statement (scale undefined) and not in the '
